@@ -246,6 +246,13 @@ def run_single(key):
                 return viol('cACG parameters non-finite')
             if lam.min() < 1e-10 * (1 - 1e-6) or lam.max() > 1 + 1e-6:
                 return viol(f'cACG eigenvalues outside [floor, 1]: {lam.min()!r}, {lam.max()!r}')
+            # a caller-chosen floor is honoured as well
+            for fl in (1e-3, 0.2):
+                m2 = d.ComplexAngularCentralGaussianTrainer().fit(y, iterations=key['its'], eigenvalue_floor=fl)
+                lam2 = np.asarray(m2.covariance_eigenvalues)
+                if not np.isfinite(lam2).all() or lam2.min() < fl * (1 - 1e-6) or lam2.max() > 1 + 1e-6:
+                    return viol(f'cACG eigenvalues outside [floor, 1] for eigenvalue_floor={fl}: '
+                                f'{lam2.min()!r}, {lam2.max()!r}')
             g = np.einsum('...ji,...jk->...ik', U.conj(), U)
             if np.abs(g - np.eye(D)).max() > 1e-8:
                 return viol('cACG eigenvectors not unitary')
